@@ -36,7 +36,13 @@ type c02Case struct {
 	// MEnc: message encoding other than QP / base64 ("8bit" = NoEncoding, "usascii" = 7bit): the header encoder then
 	// is neither the Q nor the B encoder the caller picked
 	MEnc string `json:"menc,omitempty"`
+	// Field: the field name handed to SetGenHeader / SetHeader (default X-Custom / X-Alias)
+	Field string `json:"field,omitempty"`
 }
+
+// c02GenFields: go-mail's Header constants that have no setter of their own, plus two registered names without constant.
+var c02GenFields = []string{"In-Reply-To", "References", "List-Unsubscribe", "List-Unsubscribe-Post", "Precedence", "Importance", "Priority", "X-Priority",
+	"X-MSMail-Priority", "X-Auto-Response-Suppress", "Content-Language", "Content-Location", "X-Mailer", "Keywords", "Comments"}
 
 var c02Setters = []string{"subject", "gen-header", "from-name", "to-name", "cc-name", "replyto-name", "message-id", "organization", "user-agent",
 	"attachment-name", "embed-name", "file-description", "part-description", "content-id", "mdn-name", "mdn-add-name", "set-header-alias"}
@@ -55,6 +61,10 @@ func c02Build(shape int, b bool, sets [][2]interface{}, late bool, charset strin
 	enc := mail.EncodingQP
 	if b {
 		enc = mail.EncodingB64
+	}
+	genField, aliasField := "X-Custom", "X-Alias"
+	if len(menc) > 1 && menc[1] != "" {
+		genField, aliasField = menc[1], menc[1]
 	}
 	if len(menc) > 0 {
 		switch menc[0] {
@@ -92,10 +102,10 @@ func c02Build(shape int, b bool, sets [][2]interface{}, late bool, charset strin
 		m.Subject(v)
 	}
 	if v, ok := val(1); ok {
-		m.SetGenHeader(mail.Header("X-Custom"), v)
+		m.SetGenHeader(mail.Header(genField), v)
 	}
 	if v, ok := val(16); ok {
-		m.SetHeader(mail.Header("X-Alias"), v) // the deprecated alias of SetGenHeader
+		m.SetHeader(mail.Header(aliasField), v) // the deprecated alias of SetGenHeader
 	}
 	if v, ok := val(2); ok {
 		note(m.FromFormat(v, "sender@snd.example"))
@@ -373,7 +383,7 @@ func c02ExecOne(r *vf.Run, k c02Case) []finding {
 		var serr, werr error
 		pan, pw := vf.Guard(func() {
 			var m *mail.Msg
-			m, serr = c02Build(k.Shape, k.B, s, k.Late, k.Charset, k.MEnc)
+			m, serr = c02Build(k.Shape, k.B, s, k.Late, k.Charset, k.MEnc, k.Field)
 			if serr == nil {
 				_, werr = m.WriteTo(&buf)
 			}
@@ -426,6 +436,9 @@ func c02ExecOne(r *vf.Run, k c02Case) []finding {
 		// an empty value means "not set": the setter's own field may be absent
 		own := map[string]string{"file-description": "content-description", "part-description": "content-description", "subject": "subject",
 			"gen-header": "x-custom", "organization": "organization", "content-id": "content-id", "set-header-alias": "x-alias"}[sname]
+		if k.Field != "" && (sname == "gen-header" || sname == "set-header-alias") {
+			own = strings.ToLower(k.Field)
+		}
 		strip := func(secs []c02Section) {
 			for i := range secs {
 				var n []string
@@ -499,11 +512,19 @@ func c02ExecOne(r *vf.Run, k c02Case) []finding {
 		g, err := dec(he.First("Subject"))
 		chk("Subject", g, err, want)
 	case "gen-header":
-		g, err := dec(he.First("X-Custom"))
-		chk("X-Custom", g, err, want)
+		f := "X-Custom"
+		if k.Field != "" {
+			f = k.Field
+		}
+		g, err := dec(he.First(f))
+		chk(f, g, err, want)
 	case "set-header-alias":
-		g, err := dec(he.First("X-Alias"))
-		chk("X-Alias", g, err, want)
+		f := "X-Alias"
+		if k.Field != "" {
+			f = k.Field
+		}
+		g, err := dec(he.First(f))
+		chk(f, g, err, want)
 	case "organization":
 		g, err := dec(he.First("Organization"))
 		chk("Organization", g, err, want)
@@ -680,6 +701,17 @@ func init() {
 							continue
 						}
 						cases = append(cases, c02Case{Setter: s, Value: v, Shape: (vi + s) % 3, B: (vi/3+ci)%2 == 0, Setter2: -1, Charset: cs})
+					}
+				}
+			}
+			// the generic setters with go-mail's own field-name constants (and two names without constant): every value
+			for fi, f := range c02GenFields {
+				for _, s := range []int{1, 16} {
+					for vi, v := range vals {
+						if !r.Thorough && vi >= 768 && len(v) > 2 && (vi+s)%5 != fi%5 {
+							continue
+						}
+						cases = append(cases, c02Case{Setter: s, Value: v, Shape: (vi + fi) % 3, B: (vi+fi)%2 == 0, Setter2: -1, Field: f})
 					}
 				}
 			}
